@@ -210,6 +210,9 @@ def oracle_merge(spec):
     o.cls("divisions-equal", len(set(divs)) == 1)
     o.cls("divisions-different", len(set(divs)) > 1)
     o.cls("lcm-exceeds-all", L > max(divs))
+    o.cls("repeated-part-id", len(set(ps["id"] for ps in specs)) < len(specs))
+    o.cls("repeated-part-id-with-different-divisions",
+          any(a["id"] == b["id"] and a["divs"][0][1] != b["divs"][0][1] for i, a in enumerate(specs) for b in specs[i + 1:]))
     o.cls("pickup", specs[0].get("pickup") is not None)
     o.cls("some-staff-missing", any(x["staff"] is None for ps in specs for x in ps["notes"]))
     o.cls("part-all-staff-missing", any(all(x["staff"] is None for x in ps["notes"]) for ps in specs))
@@ -484,7 +487,8 @@ SUBCHECKS = [
             and M.lcm([ps["divs"][0][1] for ps in spec["parts"]]) != 1
             and all(q == 1 for (_t, q) in disc["detail"]["points"]),
         },
-        floors={"divisions-different": 0.4, "lcm-exceeds-all": 0.2, "auto-judged": 0.04, "divisions-equal": 0.1, "some-staff-missing": 0.15},
+        floors={"divisions-different": 0.4, "lcm-exceeds-all": 0.2, "auto-judged": 0.04, "divisions-equal": 0.1, "some-staff-missing": 0.15,
+                "repeated-part-id-with-different-divisions": 0.02},
     ),
     SubCheck(
         "single_part",
